@@ -262,21 +262,38 @@ def r3b_payload_paths(report, repo):
       call_name(e) == 'self._transport.read' and any(
           call_name(x) == 'struct.calcsize' for x in ast.walk(e)),
       'raw_header')
-  vd = [c for c in core.calls_in(r.node, attr='to_adb_message')]
-  dname = dotted(vd[0].args[0]) if vd and vd[0].args else 'data'
 
   def cl2(expr, steps):
-    if isinstance(expr, ast.Compare) and len(expr.ops) == 1 and \
-        norm(expr.left) == rmsg + '.data_length' and isinstance(
-            expr.comparators[0], ast.Constant) and \
-        expr.comparators[0].value == 0:
-      if isinstance(expr.ops[0], (ast.Gt, ast.NotEq)):
-        return 'has_payload'
-      if isinstance(expr.ops[0], ast.Eq):
-        return ('not', 'has_payload')
+    # "the header announces a payload": data_length compared with 0, either
+    # way round (a length is never negative), or tested for truth
+    if norm(expr) == rmsg + '.data_length':
+      return 'has_payload'
+    if isinstance(expr, ast.Compare) and len(expr.ops) == 1:
+      l, r_, op = expr.left, expr.comparators[0], expr.ops[0]
+      is_len = lambda e: norm(e) == rmsg + '.data_length'
+      is0 = lambda e: isinstance(e, ast.Constant) and e.value == 0 and \
+          e.value is not False
+      if is_len(l) and is0(r_):
+        if isinstance(op, (ast.Gt, ast.NotEq)):
+          return 'has_payload'
+        if isinstance(op, ast.Eq):
+          return ('not', 'has_payload')
+      if is0(l) and is_len(r_):
+        if isinstance(op, ast.NotEq):
+          return 'has_payload'
+        if isinstance(op, (ast.Eq, ast.GtE)):
+          return ('not', 'has_payload')
     if core.is_name(expr, rhdr):
       return 'got_header'
     return None
+
+  def validated(p):
+    """what the to_adb_message call on this path is given"""
+    vc = p.calls(attr='to_adb_message')
+    if len(vc) != 1 or not vc[0].args:
+      return None
+    i = p.index_of(lambda n_: n_.contains(vc[0]))
+    return cfgm.path_resolve(p, vc[0].args[0], before_index=i)
 
   def sp2(v, p):
     if not v['got_header']:
@@ -292,13 +309,13 @@ def r3b_payload_paths(report, repo):
       if len(pay) != 1:
         return ('payload-row: a frame announcing a payload must read exactly '
                 'data_length bytes (payload reads: %d)' % len(pay))
-      src = p.value_of(dname)
+      src = validated(p)
       if src is not pay[0]:
         return 'payload-row: the validated data is not what was read'
     else:
       if pay:
         return 'empty-row: a payload is read for a frame announcing none'
-      src = p.value_of(dname)
+      src = validated(p)
       if not (isinstance(src, ast.Constant) and src.value in ('', b'')):
         return 'empty-row: data must be empty for a frame without payload'
     return None
@@ -430,27 +447,70 @@ def r5_tables(report, repo):
   report.rule(rule, 'T-AGREE: make_wire_commands builds mutually inverse '
               'dictionaries; the command list has the 7 ADB commands')
   f = repo.func(AM, 'make_wire_commands')
-  dcs = [n for n in walk_no_nested(f.node) if isinstance(n, ast.DictComp)]
-  ok = len(dcs) == 2
+  ids = f.node.args.vararg.arg if f.node.args.vararg else lib.param_names(
+      f.node)[0]
+  # (a) the packing term: ord(<char>) << (<index> * 8) with (<index>, <char>)
+  # ranging over enumerate(<command>), summed up (sum(...) or `+=` from 0)
+  sh = [x for x in ast.walk(f.node) if isinstance(x, ast.BinOp) and
+        isinstance(x.op, ast.LShift)]
+  enums = []
+  for x in ast.walk(f.node):
+    if isinstance(x, (ast.comprehension, ast.For)) and call_name(x.iter) == \
+        'enumerate' and isinstance(x.target, ast.Tuple) and \
+        len(x.target.elts) == 2:
+      enums.append((dotted(x.target.elts[0]), dotted(x.target.elts[1]),
+                    dotted(x.iter.args[0]) if x.iter.args else None))
+  ok = len(sh) == 1 and len(enums) == 1
+  fwd_key = None
   if ok:
-    a, b = dcs
-    ok = dotted(a.key) == dotted(a.generators[0].target) and dotted(
-        a.generators[0].iter) == 'ids' and isinstance(
-            b.generators[0].target, ast.Tuple) and dotted(b.key) == dotted(
-                b.generators[0].target.elts[1]) and dotted(b.value) == dotted(
-                    b.generators[0].target.elts[0]) and call_name(
-                        b.generators[0].iter) == (lib.local_from(
-                            f, lambda e: e is a, 'cmd_to_wire') + '.items')
-    # little-endian packing of the 4 characters
-    sh = [x for x in ast.walk(a.value) if isinstance(x, ast.BinOp) and
-          isinstance(x.op, ast.LShift)]
-    idx = None
-    for x in ast.walk(a.value):
-      if isinstance(x, ast.comprehension) and call_name(x.iter) == \
-          'enumerate' and isinstance(x.target, ast.Tuple):
-        idx = dotted(x.target.elts[0])
-    ok = ok and len(sh) == 1 and call_name(sh[0].left) == 'ord' and \
-        idx is not None and norm(sh[0].right) in (idx + ' * 8', '8 * ' + idx)
+    idx, ch, word = enums[0]
+    fwd_key = word
+    ok = call_name(sh[0].left) == 'ord' and dotted(sh[0].left.args[0]) == ch \
+        and norm(sh[0].right) in (idx + ' * 8', '8 * ' + idx)
+    summed = any(isinstance(x, ast.Call) and call_name(x) == 'sum' and any(
+        y is sh[0] for y in ast.walk(x)) for x in ast.walk(f.node)) or any(
+            isinstance(x, ast.AugAssign) and isinstance(x.op, ast.Add) and
+            x.value is sh[0] and any(
+                isinstance(i, ast.Assign) and dotted(i.targets[0]) == dotted(
+                    x.target) and isinstance(i.value, ast.Constant) and
+                i.value.value == 0 for i in ast.walk(f.node))
+            for x in ast.walk(f.node))
+    ok = ok and summed
+  # (b) forward table keyed by the command, inverse table built from its items
+  fwd = inv = None
+  for x in ast.walk(f.node):
+    if isinstance(x, ast.DictComp) and len(x.generators) == 1:
+      gen = x.generators[0]
+      if dotted(gen.iter) == ids and dotted(x.key) == dotted(gen.target):
+        fwd = ('comp', x)
+      elif isinstance(gen.target, ast.Tuple) and len(gen.target.elts) == 2 and \
+          last_attr(gen.iter) == 'items' and dotted(x.key) == dotted(
+              gen.target.elts[1]) and dotted(x.value) == dotted(
+                  gen.target.elts[0]):
+        inv = ('comp', dotted(gen.iter.func.value))
+    elif isinstance(x, ast.For):
+      # table stores directly in this loop's body (not in a nested loop)
+      for st in x.body:
+        if not (isinstance(st, ast.Assign) and isinstance(st.targets[0],
+                                                          ast.Subscript)):
+          continue
+        tgt = st.targets[0]
+        if dotted(x.iter) == ids and dotted(tgt.slice) == dotted(x.target):
+          fwd = ('loop', dotted(tgt.value))
+        elif isinstance(x.target, ast.Tuple) and len(x.target.elts) == 2 and \
+            last_attr(x.iter) == 'items' and dotted(tgt.slice) == dotted(
+                x.target.elts[1]) and dotted(st.value) == dotted(
+                    x.target.elts[0]):
+          inv = ('loop', dotted(x.iter.func.value), dotted(tgt.value))
+  fwd_name = None
+  if fwd is not None:
+    fwd_name = lib.local_from(f, lambda e: e is fwd[1], None) if fwd[0] == \
+        'comp' else fwd[1]
+  ok = ok and fwd is not None and inv is not None and fwd_name is not None \
+      and inv[1] == fwd_name
+  rets = [n for n in walk_no_nested(f.node) if isinstance(n, ast.Return)]
+  ok = ok and len(rets) == 1 and isinstance(rets[0].value, ast.Tuple) and \
+      len(rets[0].value.elts) == 2 and dotted(rets[0].value.elts[0]) == fwd_name
   report.check(ok, rule, f.qualname, 'inverse-tables', f.node,
                'cmd->wire packs characters little-endian; wire->cmd is its '
                'inverse')
